@@ -21,6 +21,8 @@ def rha_q(x, c):
 def identities(doc, t, rounding=None):
     """list of (clause, detail) that fail on the presented figures t (projected layout)."""
     cc, cur, c, rr, date = cg.doc_meta(doc)
+    if rounding is None and (doc.get("totals") or {}).get("rounding") is not None:
+        rounding = cg.parse(doc["totals"]["rounding"]).q()
     bad = []
     z = Fraction(0)
     lines = t[0]
